@@ -3522,12 +3522,12 @@ class Network(Cached):
                             this_twinness = None
                         if self.silence_level <= 0:
                             print("   submitting", index)
-                            mpi.submit_call(
-                                "Network._mpi_nsi_arenas_betweenness",
-                                (N, sp_P, this_Aplus, w, this_w,
-                                 start_i, end_i, exclude_neighbors,
-                                 stopping_mode, this_twinness),
-                                module="pyunicorn", id=index)
+                        mpi.submit_call(
+                            "Network._mpi_nsi_arenas_betweenness",
+                            (N, sp_P, this_Aplus, w, this_w,
+                             start_i, end_i, exclude_neighbors,
+                             stopping_mode, this_twinness),
+                            module="pyunicorn", id=index)
 
                     # Retrieve results of all submitted jobs
                     component_betweenness = np.zeros(N)
